@@ -39,7 +39,36 @@ def cuda_pre(text):
     return re.sub(r"<<<[^>]*>>>", "", text)
 
 
-def load(project, tdir, what, with_rates=False, with_physics=False, extra=()):
+_LITRE = re.compile(r"(?<![\w.])(\d+\.\d*(?:[eE][+-]?\d+)?|\d+[eE][+-]?\d+|\.\d+(?:[eE][+-]?\d+)?)(?![\w.])")
+
+
+def lift_literals(text, table):
+    """Replace every floating literal of the emitted source by an `extern const double`
+    whose exact value the interpreter knows: the compiler can then not constant-fold
+    (and round) products of literals, so emitted and reference arithmetic are both exact."""
+    out = []
+    for line in text.split("\n"):
+        st = line.lstrip()
+        if st.startswith(("#", "//", "/*", "*")):
+            out.append(line)
+            continue
+
+        def rep(m):
+            lit = m.group(1)
+            name = f"VLIT_{len(table)}"
+            table[name] = lit
+            return f"({name})"
+
+        out.append(_LITRE.sub(rep, line))
+    decl = "\n".join(f"extern const double {n};" for n in table)
+    body = "\n".join(out)
+    # declarations after the last #include
+    idx = [m.end() for m in re.finditer(r"^#include[^\n]*\n", body, re.M)]
+    pos = idx[-1] if idx else 0
+    return body[:pos] + decl + "\n" + body[pos:]
+
+
+def load(project, tdir, what, with_rates=False, with_physics=False, extra=(), lift=False):
     kind = KIND[tdir]
     tus = list(_tus_for(kind, what))
     if with_rates and kind != "odeint":
@@ -57,6 +86,26 @@ def load(project, tdir, what, with_rates=False, with_physics=False, extra=()):
                 paths.append(ll)
         L = H.Loaded(project, tdir, ir_paths=paths)
         L.errors = errors
+    elif lift:
+        paths, errors, table = [], {}, {}
+        main_tu = _tus_for(kind, what)[0]
+        for tu in tus:
+            if tu == main_tu:
+                ll, err = project.compile_ir(tdir, tu, pre=lambda t: lift_literals(t, table), tag="lift")
+                if ll is None:
+                    # report the diagnostics of the *unmodified* emitted source
+                    ll0, err0 = project.compile_ir(tdir, tu)
+                    err = err0 if ll0 is None else "literal lifting broke the source: " + err
+            else:
+                ll, err = project.compile_ir(tdir, tu)
+            if ll is None:
+                errors[tu] = err
+            else:
+                paths.append(ll)
+        L = H.Loaded(project, tdir, ir_paths=paths)
+        L.errors = errors
+        L.M.const_globals = {"@" + n: Fraction(float(v)) for n, v in table.items()}
+        L.literals = table
     else:
         L = H.Loaded(project, tdir, tus=tus)
     L.kind = kind
@@ -76,9 +125,20 @@ def _thermal_stubs(L, run):
     for nm in ("GetMu", "GetGamma", "GetNumDens", "GetMantleDens", "GetMantleDensOfGroup", "GetHNuclei", "GetCharactWavelength", "GetShieldingFactor", "GetH2shielding", "GetCOshielding", "GetN2shielding", "GetH2shieldingInt", "GetCOshieldingInt", "GetCOshieldingInt1", "GetN2shieldingInt", "GetGrainScale"):
         if not L.has(rf"^{nm}\("):
             L.add_pattern_stub(rf"^{nm}\(", _opaque_of_args(nm))
+    # any other physics helper that is not part of the loaded modules
+    L.add_pattern_stub(r"^Get[A-Z]\w*\(", _opaque_generic)
 
 
 _opaque_cache = {}
+
+
+def _opaque_generic(M, st, a):
+    scal = tuple(str(val_of(x)) for x in a if not isinstance(x, Ptr))
+    key = ("Get*", len(a), scal)
+    if key not in _opaque_cache:
+        _opaque_cache[key] = z3.Real(f"opaque_helper!{len(_opaque_cache)}")
+    return st, _opaque_cache[key]
+
 
 
 def _opaque_of_args(nm):
